@@ -326,6 +326,25 @@ class installed:
         self.saved_shutil = {n: getattr(shutil, n) for n in ("copyfile", "copy", "copy2", "move")}
         for n in self.saved_shutil:
             setattr(shutil, n, self.vfs.move if n == "move" else self.vfs.copyfile)
+        # any module that opens a path on the virtual disk (a writability probe, a hand-rolled copy) does so on the virtual disk
+        import builtins
+        import io
+
+        real_open = self.saved_builtin_open = builtins.open
+        vfs = self.vfs
+        roots = tuple(sorted({"/" + str(p_).split("/")[1] + "/" for p_ in list(vfs.files) + list(vfs.deny) if str(p_).startswith("/") and str(p_).count("/") >= 2} | {"/ckpt/"}))
+
+        def vopen(file, mode="r", *a, **k):
+            if isinstance(file, str) and file.startswith(roots):
+                if "w" in mode or "a" in mode:
+                    return vfs.open(file, mode)
+                if file not in vfs.files:
+                    raise FileNotFoundError(2, "No such file or directory", file)
+                data = vfs.files[file]
+                return io.BytesIO(data) if "b" in mode else io.StringIO(data.decode())
+            return real_open(file, mode, *a, **k)
+
+        builtins.open = vopen
         import tempfile
 
         self.saved_tmp = {n: getattr(tempfile, n) for n in ("NamedTemporaryFile", "mkstemp")}
@@ -343,6 +362,9 @@ class installed:
 
         for n, f in self.saved_shutil.items():
             setattr(shutil, n, f)
+        import builtins
+
+        builtins.open = self.saved_builtin_open
         import tempfile
 
         for n, f in self.saved_tmp.items():
